@@ -580,3 +580,144 @@ Proof.
     rewrite Forall_forall in *. intros x Hx. apply Hb. eapply Permutation_in; [exact Hperm|exact Hx].
   - eapply Permutation_NoDup; [|exact I2]. apply Permutation_map. exact Hperm.
 Qed.
+
+(* ------------------------------------------------------------------ entity level: load (save e) is canonical *)
+
+(** representation invariant of an entity: Go maps have distinct keys *)
+Definition inv_entity (e : entity) : Prop :=
+  match e with
+  | EStorage _ _ units => NoDup (map fst units)
+  | EPageTable _ tables => NoDup (map fst tables)
+  | _ => True
+  end.
+
+Lemma decode_msgs_views cfg l ms : decode_msgs cfg (map elview_of l) = Ok ms -> ms = l.
+Proof.
+  revert ms; induction l as [|m l IH]; intros ms H; cbn [map decode_msgs] in H.
+  - inversion H. reflexivity.
+  - destruct (negb (mem_str (lv_tag (elview_of m)) (msg_types cfg))); [discriminate|].
+    cbn [elview_of lv_ok negb] in H.
+    destruct (decode_msgs cfg (map elview_of l)) as [t|?|]; try discriminate.
+    inversion H; subst. rewrite (IH t eq_refl). destruct m; reflexivity.
+Qed.
+
+Lemma decode_evs_views cfg l evs : decode_evs cfg (map evview_of l) = Ok evs -> evs = l.
+Proof.
+  revert evs; induction l as [|e l IH]; intros evs H; cbn [map decode_evs] in H.
+  - inversion H. reflexivity.
+  - destruct (negb (mem_str (vv_tag (evview_of e)) (evt_types cfg))); [discriminate|].
+    cbn [evview_of vv_dec] in H.
+    destruct (decode_evs cfg (map evview_of l)) as [t|?|]; try discriminate.
+    inversion H; subst. rewrite (IH t eq_refl). destruct e; reflexivity.
+Qed.
+
+Lemma decode_events_views cfg hs l evs :
+  decode_events cfg hs (Some (map evview_of l)) = Ok evs -> evs = l.
+Proof.
+  unfold decode_events. destruct (decode_evs cfg (map evview_of l)) as [t|?|] eqn:E; try discriminate.
+  destruct (forallb _ t); [|discriminate]. intros H. inversion H; subst.
+  exact (decode_evs_views cfg l evs E).
+Qed.
+
+Lemma load_buffer_views cfg cap mism c ms l :
+  load_buffer cfg cap mism (save_buffer c l) = Ok ms -> ms = l /\ c = cap.
+Proof.
+  unfold load_buffer, save_buffer. cbn [bc_cap bc_elems].
+  destruct (c =? cap)%Z eqn:Ec; cbn [negb]; [|discriminate]. apply Z.eqb_eq in Ec.
+  destruct (decode_msgs cfg (map elview_of l)) as [t|?|] eqn:E; try discriminate.
+  destruct (cap <? Z.of_nat (length t))%Z; [discriminate|].
+  intros H. inversion H; subst. split; [exact (decode_msgs_views cfg l ms E)|reflexivity].
+Qed.
+
+(** sorting by time a list that is already a time-sorted snapshot changes nothing *)
+Lemma keyed_map_snd {A} (key : A -> N) (l : list (N * A)) :
+  Forall (fun p => fst p = key (snd p)) l -> map (fun e => (key e, e)) (map snd l) = l.
+Proof.
+  induction 1 as [|[k a] l Hp Hl IH]; [reflexivity|].
+  cbn [map snd]. cbn [fst snd] in Hp. rewrite IH, <- Hp. reflexivity.
+Qed.
+
+Lemma nsort_idem {A} (l : list (N * A)) : ks_sort N.ltb (ks_sort N.ltb l) = ks_sort N.ltb l.
+Proof. apply ks_sort_idem; [apply N.ltb_irrefl|apply N_ltb_trans]. Qed.
+
+Lemma sort_time_idem q : sort_time (sort_time q) = sort_time q.
+Proof.
+  unfold sort_time. rewrite (keyed_map_snd e_time).
+  - rewrite nsort_idem. reflexivity.
+  - apply Forall_forall. intros p Hp. apply ks_sort_in in Hp.
+    apply in_map_iff in Hp. destruct Hp as (e & <- & _). reflexivity.
+Qed.
+
+Lemma map_put_fresh {A} k (v : A) m : ~ In k (map fst m) -> map_put k v m = m ++ [(k, v)].
+Proof.
+  induction m as [|[k' v'] m IH]; intros H; [reflexivity|].
+  cbn [map_put app]. destruct (k =? k') eqn:E.
+  - apply N.eqb_eq in E. subst. exfalso. apply H. left. reflexivity.
+  - rewrite IH; [reflexivity|]. intros Hin. apply H. right. exact Hin.
+Qed.
+
+Lemma map_of_list_nodup_acc {A} (l acc : list (N * A)) :
+  NoDup (map fst (acc ++ l)) ->
+  fold_left (fun m kv => map_put (fst kv) (snd kv) m) l acc = acc ++ l.
+Proof.
+  revert acc; induction l as [|[k v] l IH]; intros acc H; [rewrite app_nil_r; reflexivity|].
+  cbn [fold_left fst snd]. rewrite map_put_fresh.
+  - rewrite IH; rewrite <- app_assoc; [reflexivity|exact H].
+  - rewrite map_app in H. cbn [map fst] in H. intros Hin.
+    apply NoDup_remove_2 in H. apply H. apply in_or_app. left. exact Hin.
+Qed.
+
+Lemma map_of_list_nodup {A} (l : list (N * A)) : NoDup (map fst l) -> map_of_list l = l.
+Proof. intros H. unfold map_of_list. rewrite map_of_list_nodup_acc; [reflexivity|exact H]. Qed.
+
+Lemma nsort_nodup {A} (l : list (N * A)) : NoDup (map fst l) -> NoDup (map fst (ks_sort N.ltb l)).
+Proof. apply ks_sort_keys_nodup. Qed.
+
+Lemma entity_canonical cfg e e0 e' :
+  inv_entity e -> load_entity cfg e0 (save_entity e) = Ok e' ->
+  save_entity e' = save_entity e /\ inv_entity e'.
+Proof.
+  intros Hinv H. unfold load_entity, load_entity_with in H.
+  destruct e0 as [t0 p0 s0 handlers|n0|spec_hash st0 ht0 nt0|spec_hash st0 pw0|icap ie0 ocap oe0|cap unit un0|log2 tb0];
+  destruct e as [t q3 q4 hs|n|spec_hash0 st ht nt|spec_hash0 st pw|icap0 ielems0 ocap0 oelems0|cap0 unit0 units0|log0 tables0];
+    cbn [save_entity] in H; try discriminate H;
+    try (destruct p0; [|discriminate H]; destruct s0; discriminate H).
+  - (* engine *)
+    destruct p0; [|discriminate]. destruct s0; [|discriminate].
+    destruct (decode_events cfg handlers (Some (map evview_of (sort_time q3)))) as [e1|?|] eqn:E1; try discriminate.
+    destruct (decode_events cfg handlers (Some (map evview_of (sort_time q4)))) as [e2|?|] eqn:E2; try discriminate.
+    inversion H; subst. apply decode_events_views in E1. apply decode_events_views in E2. subst.
+    cbn [save_entity inv_entity]. rewrite !sort_time_idem. split; [reflexivity|exact I].
+  - (* id generator *)
+    change (str_eqb sequential sequential) with true in H. inversion H; subst. split; [reflexivity|exact I].
+  - (* component *)
+    destruct (str_eqb spec_hash spec_hash0) eqn:Eh; cbn [negb] in H; [|discriminate].
+    apply str_eqb_eq in Eh. inversion H; subst. split; [reflexivity|exact I].
+  - (* event-driven component *)
+    destruct (str_eqb spec_hash spec_hash0) eqn:Eh; cbn [negb] in H; [|discriminate].
+    apply str_eqb_eq in Eh. inversion H; subst. split; [reflexivity|exact I].
+  - (* port *)
+    destruct (load_buffer cfg icap ECapIncoming (save_buffer icap0 ielems0)) as [mi|?|] eqn:E1; try discriminate.
+    destruct (load_buffer cfg ocap ECapOutgoing (save_buffer ocap0 oelems0)) as [mo|?|] eqn:E2; try discriminate.
+    inversion H; subst. destruct (load_buffer_views _ _ _ _ _ _ E1) as [-> ->].
+    destruct (load_buffer_views _ _ _ _ _ _ E2) as [-> ->]. split; [reflexivity|exact I].
+  - (* storage *)
+    cbn [inv_entity] in Hinv. unfold load_storage in H.
+    destruct (cap0 =? cap) eqn:Ec; cbn [negb] in H; [|discriminate].
+    destruct (unit0 =? unit) eqn:Eu; cbn [negb] in H; [|discriminate].
+    apply N.eqb_eq in Ec. apply N.eqb_eq in Eu. subst.
+    rewrite ks_sort_length in H. rewrite N.ltb_irrefl in H. inversion H; subst.
+    assert (Hf : firstn (length units0) (ks_sort N.ltb units0) = ks_sort N.ltb units0).
+    { rewrite <- (ks_sort_length N.ltb units0). apply firstn_all. }
+    rewrite Nat2N.id, Hf.
+    pose proof (nsort_nodup units0 Hinv) as Hs.
+    rewrite (map_of_list_nodup _ Hs). cbn [save_entity inv_entity].
+    rewrite nsort_idem, ks_sort_length. split; [reflexivity|exact Hs].
+  - (* page table *)
+    cbn [inv_entity] in Hinv.
+    destruct (log0 =? log2) eqn:El; cbn [negb] in H; [|discriminate].
+    apply N.eqb_eq in El. subst. inversion H; subst.
+    pose proof (nsort_nodup tables0 Hinv) as Hs.
+    rewrite (map_of_list_nodup _ Hs). cbn [save_entity inv_entity].
+    rewrite nsort_idem. split; [reflexivity|exact Hs].
+Qed.
